@@ -1,7 +1,7 @@
-// C07(a): Kani harnesses over the code zeep GENERATES for kani_gen/facets.xsd (module `generated`, produced by the native binary
+// C07(a): Kani harnesses over the code zeep GENERATES for smi/corpus/facets2.xsd (module `generated`, produced by the native binary
 // from /repo's working tree on every run). One symbolic leaf per harness, everything else valid: check_restrictions is a
 // short-circuit conjunction over members, so the conjunction over positions is the claim.
-use crate::generated::mod_fac::{Code, Flag, Holder, Outer, Quantity};
+use crate::generated::mod_fac::{Code, Flag, Holder, Outer, Quantity, ShortCode};
 use crate::generated::restrictions::CheckRestrictions;
 
 pub fn stub_format(_a: std::fmt::Arguments<'_>) -> String {
@@ -12,7 +12,7 @@ fn s(t: &str) -> String {
     t.to_string()
 }
 fn holder(code: String, codes: Vec<Code>, maybe: Option<Flag>, qty: String, tag: String) -> Holder {
-    Holder { code: Code { value: code }, codes, maybe, qty: Quantity { value: qty }, tag: Code { value: tag } }
+    Holder { code: Code { value: code }, codes, maybe, qty: Quantity { value: qty }, short: None, tag: Code { value: tag } }
 }
 fn valid_holder() -> Holder {
     holder(s("ab"), Vec::new(), None, s("5"), s("xy"))
@@ -66,26 +66,48 @@ code_at!(c07_code_depth1_len4, 4, |v| Outer { holder: holder(v, Vec::new(), None
 code_at!(c07_attr_tag_len1, 1, |v| Outer { holder: holder(s("ab"), Vec::new(), None, s("5"), v), more: Vec::new(), plain: s("p") });
 code_at!(c07_attr_tag_len2, 2, |v| Outer { holder: holder(s("ab"), Vec::new(), None, s("5"), v), more: Vec::new(), plain: s("p") });
 code_at!(c07_vec_item_len4, 4, |v| Outer { holder: holder(s("ab"), vec![Code { value: s("ok") }, Code { value: v }], None, s("5"), s("xy")), more: Vec::new(), plain: s("p") });
-code_at!(c07_depth2_vec_len1, 1, |v| Outer { holder: valid_holder(), more: vec![valid_holder(), holder(v, Vec::new(), None, s("5"), s("xy"))], plain: s("p") });
+// depth 2 through the repeated complex member (more: Vec<Holder>) does not finish under CBMC within 1500 s (moving a Holder with five
+// heap strings into a Vec); that position is decided by the SMI part of C07 (quick tier) instead.
 
 #[kani::proof]
 #[kani::unwind(8)]
 #[kani::stub(alloc::fmt::format, stub_format)]
-fn c07_optional_flag_len2() {
+fn c07_optional_flag_present_len2() {
     let v = ascii::<2>();
     let member = v.as_bytes() == b"on";
-    let present: bool = kani::any();
-    let o = if present {
-        Outer { holder: holder(s("ab"), Vec::new(), Some(Flag { value: v }), s("5"), s("xy")), more: Vec::new(), plain: s("p") }
-    } else {
-        std::mem::forget(v);
-        Outer { holder: valid_holder(), more: Vec::new(), plain: s("p") }
-    };
+    let o = Outer { holder: holder(s("ab"), Vec::new(), Some(Flag { value: v }), s("5"), s("xy")), more: Vec::new(), plain: s("p") };
     let err = verdict(o);
-    kani::cover!(present && !err, "member accepted");
-    kani::cover!(present && err, "non-member rejected");
-    assert!(err == (present && !member), "C07 an optional enumerated member is rejected exactly when it is present and not in the enumeration");
+    kani::cover!(!err, "member accepted");
+    kani::cover!(err, "non-member rejected");
+    assert!(err == !member, "C07 an optional enumerated member that is present is rejected exactly when it is not in the enumeration");
 }
+
+#[kani::proof]
+#[kani::unwind(8)]
+#[kani::stub(alloc::fmt::format, stub_format)]
+fn c07_optional_members_absent() {
+    let o = Outer { holder: valid_holder(), more: Vec::new(), plain: s("p") };
+    assert!(!verdict(o), "C07 absent optional members never make the check fail");
+}
+
+// a simple type derived from a restricted simple type: ShortCode = Code (minLength 2, maxLength 3) narrowed to maxLength 2
+macro_rules! short_at {
+    ($name:ident, $l:literal) => {
+        #[kani::proof]
+        #[kani::unwind(8)]
+        #[kani::stub(alloc::fmt::format, stub_format)]
+        fn $name() {
+            let v = ascii::<$l>();
+            let mut h = valid_holder();
+            h.short = Some(ShortCode { value: Code { value: v } });
+            let err = verdict(Outer { holder: h, more: Vec::new(), plain: s("p") });
+            assert!(err == ($l != 2), "C07 a ShortCode value is rejected exactly when its length is not 2 (inherited minLength 2, own maxLength 2)");
+        }
+    };
+}
+short_at!(c07_derived_short_len1, 1);
+short_at!(c07_derived_short_len2, 2);
+short_at!(c07_derived_short_len3, 3);
 
 #[kani::proof]
 #[kani::unwind(8)]
